@@ -27,6 +27,15 @@ CHECKS = {
             'limits, no "+"); 2^32-1 for version/uid/changeset is not judged because the shipped unit tests pin it as rejected; 29 Feb in non-leap '
             'years and instants outside the uint32 window are not judged.',
             'DESIGN.md section 2 C13'),
+    'C01': ('exploration', 'differential round trip Writer->Reader against a format-projection model + independent PBF framing parser (ASan/UBSan build)',
+            'Seeded data sets with boundary-heavy values are written with the real Writer under random option vectors (format, dense, blob compression, '
+            '32 metadata subsets, locations_on_ways, file compression, reader pool, file/memory input, buffer/item feeding), read back with the real Reader '
+            'and compared field by field with project(D, options); boundary packs exercise 7999/8000/8001 entities per block and a > 32 MiB string table; '
+            'every uncompressed PBF file is re-parsed by an independent framing parser that enforces the 64 KiB / 32 MiB limits. Held on the sampled '
+            '(D, option) pairs only.',
+            'Trusted: the projection rules (listed in the evidence under coverage.info), the harness framing parser, zlib/lz4. Domain restrictions are '
+            'listed in the evidence. Known finding: XML changeset id 2^32-1 (pinned by a shipped unit test).',
+            'DESIGN.md section 2 C01'),
 }
 
 NOT_YET = 'check not built yet (work in progress, see DESIGN.md section 6)'
